@@ -635,7 +635,7 @@ func (p *Parser) parseProviderType(pkg *packages.Package, providerType types.Typ
 				}
 			}
 		}
-		if !bound && !result.IsStruct {
+		if !bound {
 			// e.g. the provider returns a value and the methods have pointer receivers: the binding
 			// would silently supply nothing and the interface would become an injector parameter
 			return nil, fmt.Errorf("no result of the bound provider implements %s", interfaceType)
